@@ -159,6 +159,29 @@ pub(crate) fn write_buffered(
     w: &mut dyn Write,
     #[cfg(test)] o_validation_buffer: Option<&Arc<Mutex<Cursor<Vec<u8>>>>>,
 ) -> Result<(), std::io::Error> {
+    write_buffered_with(
+        format_function,
+        now,
+        record,
+        |line| w.write_all(line),
+        #[cfg(test)]
+        o_validation_buffer,
+    )
+}
+
+// Use the thread-local buffer for formatting, then hand the complete line to the given function.
+// The formatting (which runs user code: Display and Debug implementations) is finished before
+// the function is called, so the function may take a lock that is not reentrant.
+pub(crate) fn write_buffered_with<F>(
+    format_function: FormatFunction,
+    now: &mut DeferredNow,
+    record: &Record,
+    write_line: F,
+    #[cfg(test)] o_validation_buffer: Option<&Arc<Mutex<Cursor<Vec<u8>>>>>,
+) -> Result<(), std::io::Error>
+where
+    F: FnOnce(&[u8]) -> Result<(), std::io::Error>,
+{
     let mut result: Result<(), std::io::Error> = Ok(());
 
     buffer_with(|tl_buf| match tl_buf.try_borrow_mut() {
@@ -169,7 +192,7 @@ pub(crate) fn write_buffered(
                 .write_all(b"\n")
                 .unwrap_or_else(|e| eprint_err(ErrorCode::Write, "writing failed", &e));
 
-            result = w.write_all(&buffer).inspect_err(|e| {
+            result = write_line(&buffer).inspect_err(|e| {
                 eprint_err(ErrorCode::Write, "writing failed", e);
             });
 
@@ -191,7 +214,7 @@ pub(crate) fn write_buffered(
                 .write_all(b"\n")
                 .unwrap_or_else(|e| eprint_err(ErrorCode::Write, "writing failed", &e));
 
-            result = w.write_all(&tmp_buf).inspect_err(|e| {
+            result = write_line(&tmp_buf).inspect_err(|e| {
                 eprint_err(ErrorCode::Write, "writing failed", e);
             });
 
